@@ -1105,6 +1105,11 @@ def criteria_parser(criteria):
             if check is not None:
                 return check
 
+        elif op == operator.ne and not is_number(value):
+            wildcard_check = build_wildcard_re(value)
+            if wildcard_check is not None:
+                return lambda x: not wildcard_check(x)
+
         if is_number(value):
             value = coerce_to_number(value)
 
